@@ -67,7 +67,15 @@ class C12(core.Check):
     def oracle(self, res, boost):
         jesse_env.setup()
         rng = random.Random(self.seed * 104729 + 12)
-        for sess in self.sessions(self.budget(150, 1200, boost), rng):
+        regress = []
+        for w in core.load_regressions('C12'):
+            w = dict(w)
+            w['routes'] = [tuple(x) for x in w['routes']]
+            w['droutes'] = [tuple(x) for x in w['droutes']]
+            w.setdefault('syms', sorted({x for x, _ in w['routes']}))
+            w.setdefault('balance', 100_000)
+            regress.append(w)
+        for sess in regress + self.sessions(self.budget(150, 1200, boost), rng):
             cands = engcorr.candles_of(sess)
             s_step = dict(sess, fast=False)
             s_fast = dict(sess, fast=True)
